@@ -449,6 +449,69 @@ def SLIST(ctx):
     return ("attr", ("v", "self"), solver_names(ctx)["field"])
 
 
+GAME_CORE_FIELDS = ("rewards", "players", "transition_list", "final_states", "prune_states", "num_states")
+
+
+def _written_elsewhere(ctx, ctor):
+    """Attribute names that may be stored on an object of ctor's class outside ctor: `self.x = ...` in another method of the class
+    (or of a class related to it by inheritance), `other.x = ...` through any receiver that is not `self`, anywhere."""
+    family = set(ctx.prog.mro(ctor.cls.name)) | set(ctx.prog.subclasses(ctor.cls.name))
+    out = set()
+    for g in ctx.prog.all_funcs():
+        if g is ctor:
+            continue
+        for n in walk_no_nested_defs(g.node):
+            if isinstance(n, ast.Attribute) and isinstance(n.ctx, (ast.Store, ast.Del)):
+                via_self = isinstance(n.value, ast.Name) and n.value.id == "self" and g.cls is not None
+                if not via_self or g.cls.name in family:
+                    out.add(n.attr)
+            elif isinstance(n, ast.Call) and call_name(n) in ("setattr", "delattr"):
+                raise AnalysisError("setattr in %s: field constants are not established" % g.short)
+    return out
+
+
+def game_option_consts(ctx):
+    """{field: constant} for fields of StochasticGame that its constructor copies from an OPTIONAL parameter the documented game
+    description does not have (`initial_state=0`, `max_iterations=None`): the property speaks about the documented description,
+    i.e. about these options at their defaults.  Fields written anywhere else are left out."""
+    if "game_option_consts" in ctx.cache:
+        return ctx.cache["game_option_consts"]
+    out = {}
+    try:
+        init, _ = solver_entry(ctx)
+        written_elsewhere = _written_elsewhere(ctx, init)
+        stores = {}
+        for st in walk_no_nested_defs(init.node):
+            if isinstance(st, ast.Attribute) and isinstance(st.ctx, ast.Store) and attr_path(st) == "self." + st.attr:
+                stores.setdefault(st.attr, []).append(st)
+        for st in init.node.body:
+            if isinstance(st, ast.Assign) and len(st.targets) == 1 and isinstance(st.targets[0], ast.Attribute) and attr_path(st.targets[0]) == "self." + st.targets[0].attr \
+                    and isinstance(st.value, ast.Name) and st.value.id in init.defaults and st.value.id not in GAME_INPUT_SCHEMA and st.value.id != "prune_states":
+                fld = st.targets[0].attr
+                if fld in written_elsewhere or fld in GAME_CORE_FIELDS or len(stores.get(fld, [])) != 1:
+                    continue
+                # the parameter itself is not reassigned before
+                if any(isinstance(n, ast.Name) and n.id == st.value.id and isinstance(n.ctx, ast.Store) for n in walk_no_nested_defs(init.node)):
+                    continue
+                ok, v = ctx.prog.try_const(init.defaults[st.value.id], init.mod)
+                if ok and isinstance(v, (int, float, str, bool, type(None))):
+                    out[fld] = v
+    except AnalysisError:
+        pass
+    ctx.cache["game_option_consts"] = out
+    return out
+
+
+def option_field_consts(ctx, cls_name):
+    """Option fields (not the documented core) of the game / the solver that are constants in the documented configuration."""
+    if cls_name == "StochasticGame":
+        return game_option_consts(ctx)
+    if cls_name == "Solver":
+        core = ("threshold", "floor", solver_names(ctx).get("field"))
+        return {k: v for k, v in solver_field_consts(ctx).items() if k not in core}
+    return {}
+
+
 def solver_field_consts(ctx):
     """{field: constant} for Solver fields that the constructor sets to a compile-time constant, given the one construction site
     in StochasticGame.solve (explicit arguments or defaults) - e.g. an optional `max_iterations=None` that nobody passes.
@@ -471,15 +534,11 @@ def solver_field_consts(ctx):
                 if node is None:
                     continue
                 ok, v = ctx.prog.try_const(node, solve.mod if p_ in bound else sinit.mod)
+                if not ok and p_ in bound and isinstance(node, ast.Attribute) and attr_path(node) == "self." + node.attr and node.attr in game_option_consts(ctx):
+                    ok, v = True, game_option_consts(ctx)[node.attr]         # an option of the game at its default
                 if ok:
                     env[p_] = v
-            written_elsewhere = set()
-            for g in ctx.prog.all_funcs(("tad.py",)):
-                if g is sinit:
-                    continue
-                for n in walk_no_nested_defs(g.node):
-                    if isinstance(n, ast.Attribute) and isinstance(n.ctx, ast.Store):
-                        written_elsewhere.add(n.attr)
+            written_elsewhere = _written_elsewhere(ctx, sinit)
             for st in walk_no_nested_defs(sinit.node):
                 if isinstance(st, ast.Assign) and len(st.targets) == 1 and isinstance(st.targets[0], ast.Attribute) and attr_path(st.targets[0]) \
                         and attr_path(st.targets[0]).startswith("self."):
@@ -535,7 +594,8 @@ def rule_node_keeps_transitions(ctx, chk, rule):
                     return inner
                 if L.filters:
                     return "keeps only the transitions with `%s`" % show(L.filters[0] if len(L.filters) == 1 else ("and", tuple(L.filters)))
-                if L.elt != ("elem", L.id) and L.elt != ("tup", (("idx", ("elem", L.id), ("c", 0)), ("idx", ("elem", L.id), ("c", 1)))):
+                if L.elt != ("elem", L.id) and L.elt != ("tup", (("idx", ("elem", L.id), ("c", 0)), ("idx", ("elem", L.id), ("c", 1)))) \
+                        and L.elt != ("call", "tuple", (("elem", L.id),), ()):
                     return "rewrites every transition as `%s`" % show(L.elt)
                 return True if L.whole else "takes a slice of the list"
             return None
@@ -619,3 +679,59 @@ def rule_single_use_iterators(ctx, chk, rule, modules=None):
                               "(e.g. whenever the first one actually runs)" % (name, src(defs[0].value)[:60], u0[1], u0[0].lineno, u1[1]),
                               expected="a list, or one consumer", found=norm_stmt(ctx.cfg(f).stmt_of(u1[0])), construct="%s iterator %s consumed twice" % (f.short, name))
     return n_exam
+
+
+def solve_delegate(ctx):
+    """(M, n) when StochasticGame.solve only hands over to another method of the game - `return self.M()`,
+    `return self.M()[:n]`, `return tuple(self.M()[:n])` (n a constant; None for the whole value): `obj.M()[k]` is `obj.solve()[k]`
+    for every slot k < n, so a caller of M is a caller of solve as far as those slots go.  None otherwise."""
+    if "solve_delegate" in ctx.cache:
+        return ctx.cache["solve_delegate"]
+    out = None
+    try:
+        cls = ctx.prog.classes.get("StochasticGame")
+        f = cls.methods.get("solve") if cls else None
+        body = [st for st in f.node.body if not (isinstance(st, ast.Expr) and isinstance(st.value, ast.Constant))] if f is not None else []
+        if len(body) == 1 and isinstance(body[0], ast.Return) and body[0].value is not None:
+            e, n = body[0].value, None
+            if isinstance(e, ast.Call) and isinstance(e.func, ast.Name) and e.func.id == "tuple" and len(e.args) == 1 and not e.keywords:
+                e = e.args[0]
+            if isinstance(e, ast.Subscript) and isinstance(e.slice, ast.Slice) and e.slice.lower is None and e.slice.step is None and e.slice.upper is not None:
+                ok, v = ctx.prog.try_const(e.slice.upper, f.mod)
+                if ok and isinstance(v, int) and v > 0:
+                    e, n = e.value, v
+                else:
+                    e = None
+            if isinstance(e, ast.Call) and isinstance(e.func, ast.Attribute) and isinstance(e.func.value, ast.Name) and e.func.value.id == "self" \
+                    and not e.args and not e.keywords and e.func.attr in cls.methods and e.func.attr != "solve":
+                out = (e.func.attr, n)
+    except AnalysisError:
+        out = None
+    ctx.cache["solve_delegate"] = out
+    return out
+
+
+def solve_names(ctx):
+    d = solve_delegate(ctx)
+    return ("solve", d[0]) if d else ("solve",)
+
+
+def solve_calls_in(ctx, f):
+    from .C02 import calls_of
+    return [c for nm in solve_names(ctx) for c in calls_of(f, nm)]
+
+
+def as_solve(ctx, t):
+    """Rename `obj.M()` to `obj.solve()` under a slot index the two share (see solve_delegate)."""
+    d = solve_delegate(ctx)
+    if not d:
+        return t
+    from ..symx import subst, is_const
+    m, n = d
+
+    def g(x):
+        if x[0] == "idx" and x[1][0] == "mcall" and x[1][2] == m and not x[1][3] and not x[1][4] and is_const(x[2]) and isinstance(x[2][1], int) \
+                and (n is None or 0 <= x[2][1] < n):
+            return ("idx", ("mcall", x[1][1], "solve", (), ()), x[2])
+        return None
+    return subst(t, g)
